@@ -42,6 +42,32 @@ func init() {
 			}
 			return out
 		}})
+	reg(&Oblig{ID: "QR-cap", Pkg: "qr", Func: "VP_QR_boundary", Props: []string{"C01", "C10", "C13", "C16"},
+		Desc:  "capacity boundaries of the mode encoders: content of exactly the capacity of version v is placed in version v, one character more in version v+1 (rejected, without leaking the producer goroutine, beyond version 40); stream checked as in QR-A",
+		Real:  []string{"qr.encodeNumeric", "qr.encodeAlphaNumeric", "qr.stringToAlphaIdx (goroutine)", "qr.encodeUnicode", "qr.addPaddingAndTerminator", "qr.findSmallestVersionInfo"},
+		Stubs: []string{oracle, "content class-constrained (digits / upper-case letters / bytes >= 0x80): the length is the quantity under test"},
+		Bound: "versions 1..5 x 4 levels x 3 modes x {capacity, capacity+1} and version 40 capacity+1 (rejection) quick; all 40 versions thorough",
+		Configs: func(tier string, seed int64) []map[string]int {
+			top := 5
+			if tier == "thorough" {
+				top = 40
+			}
+			var out []map[string]int
+			cls := map[int]int{1: 1, 2: 2, 4: 3}
+			for _, mode := range []int{1, 2, 4} {
+				for l := 0; l < 4; l++ {
+					for v := 1; v <= top; v++ {
+						for d := 0; d <= 1; d++ {
+							out = append(out, map[string]int{"v": v, "level": l, "mode": mode, "delta": d, "class": cls[mode]})
+						}
+					}
+					if top < 40 {
+						out = append(out, map[string]int{"v": 40, "level": l, "mode": mode, "delta": 1, "class": cls[mode]})
+					}
+				}
+			}
+			return out
+		}})
 	reg(&Oblig{ID: "QR-B", Pkg: "qr", Func: "VP_QR_blocks", Props: []string{"C01", "C12"},
 		Desc:  "block split, Reed-Solomon per block and interleave for symbolic data codewords: the final sequence is the column-wise interleave of the ISO data blocks followed by the column-wise interleave of their check blocks, each with the ISO number of check codewords",
 		Real:  []string{"(*utils.BitList).IterateBytes (goroutine)", "qr.splitToBlocks", "(qr.blockList).interleave", "(*qr.errorCorrection).calcECC"},
